@@ -75,7 +75,7 @@ func loadSpecs(dir string) error {
 func (w *World) newEng(mode Mode) *Eng {
 	e := &Eng{world: w, prog: w.prog, pkg: w.pkg, db: w.db, mode: mode, pre: &Prelude{}, heaps: map[string]*heapInfo{},
 		strConsts: map[string]string{}, globalIDs: map[string]int{}, fieldOrd: map[string]int{}, typeTags: map[string]int{},
-		unmodelled: map[string]bool{}, inlined: map[string]bool{}, usedExterns: map[string]bool{}, usedContracts: map[string]bool{},
+		unmodelled: map[string]bool{}, inlined: map[string]bool{}, usedExterns: map[string]bool{}, neutral: map[string]bool{}, usedContracts: map[string]bool{},
 		safetyCounter: map[string]int{}, declared: map[string]bool{}}
 	e.pre.asserts.cur = &e.curOrigin
 	return e
@@ -152,6 +152,9 @@ func (w *World) verifyFunction(key string, fc *FuncContract, mode Mode) (res *Fu
 		}
 		for k := range e.usedExterns {
 			res.Externs = append(res.Externs, k)
+		}
+		for k := range e.neutral {
+			res.Warns = append(res.Warns, "call treated as memory-neutral (logging/formatting/pure helper without a contract): "+k)
 		}
 		for k := range e.usedContracts {
 			res.Contracts = append(res.Contracts, k)
